@@ -217,6 +217,16 @@ def generate(tier, rng):
     for f in range(ARG_WORDS):
         for d in DEFAULTS:
             yield {"k": "arg", "flags": f, "default": d}
+    # ---- the same constructions after EARLIER constructions with the same flag word (another class, the other
+    # short-name presence, another default): validity is a function of the constructor's own arguments
+    for f in range(OPT_WORDS):
+        for short in (False, True):
+            yield {"k": "opt", "flags": f, "short": short, "default": "none", "pre": [["cmdopt", f, short]]}
+            yield {"k": "opt", "flags": f, "short": short, "default": "none", "pre": [["opt", f, not short, "none"]]}
+            yield {"k": "opt", "flags": f, "short": short, "default": "list", "pre": [["opt", f, short, "scalar"]]}
+    for f in range(ARG_WORDS):
+        yield {"k": "arg", "flags": f, "default": "none", "pre": [["arg", f, "list"], ["opt", f, False, "none"]]}
+        yield {"k": "arg", "flags": f, "default": "list", "pre": [["arg", f, "none"]]}
     yield {"k": "consts"}
     # ---- command options: every word over bits 0..3, short, alias lists
     alias_lists = [[], ["c"], ["-c"], ["cd"], ["-cd"], ["--cd"], ["c", "de", "-f", "-gh"], ["c", "1", "d"], ["ab", ""],
@@ -338,6 +348,17 @@ def run_impl(case):
     from clikit.api.args.format.command_option import CommandOption
     from clikit.api.args.format.option import Option
     k = case["k"]
+    for pre in case.get("pre", []):
+        # earlier constructions in the same process; whatever they do, it must not matter afterwards
+        try:
+            if pre[0] == "cmdopt":
+                CommandOption("zz", "y" if pre[2] else None, [], pre[1])
+            elif pre[0] == "opt":
+                Option("zz", "y" if pre[2] else None, pre[1], default=_mk_default(pre[3]))
+            else:
+                Argument("zz", pre[1], default=_mk_default(pre[2]))
+        except Exception:  # noqa: BLE001
+            pass
     if k == "opt":
         given = _mk_default(case["default"])
         try:
